@@ -73,16 +73,30 @@ def replay(ctx, beh_path, name="r"):
     return [r[0] for r in res], [r[1] for r in res]
 
 
-def distinct_cfgs(beh_path, workdir, limit=None):
+DEFAULT_CFG = {"indent_width": 2, "trailing_comment_width": 1, "indent_style": "space", "line_width": 120,
+               "explicit_string_concat": True, "sort_declaration_property": False, "align_declaration_property": False,
+               "else_if": False, "always_next_line_else_if": False, "return_statement_parenthesis": True,
+               "sort_declaration": False, "align_trailing_comment": False, "comment_style": "none",
+               "should_use_unset": False, "indent_case_labels": False, "break_compound_conditions": True}
+
+
+def deviations(cfg):
+    return sorted("%s=%s" % (k, str(v).lower() if isinstance(v, bool) else v) for k, v in cfg.items() if DEFAULT_CFG.get(k) != v)
+
+
+def distinct_cfgs(beh_path, workdir, keep=None):
+    """the configurations TLC enumerated (optionally only those whose deviations from the defaults are all in keep)"""
     seen, out = set(), os.path.join(workdir, "cfgs.jsonl")
     with open(out, "w") as o:
         for line in open(beh_path):
-            c = json.dumps(json.loads(line)["cfg"], sort_keys=True)
-            if c not in seen:
-                seen.add(c)
-                o.write(c + "\n")
-            if limit and len(seen) >= limit:
-                break
+            cfg = json.loads(line)["cfg"]
+            c = json.dumps(cfg, sort_keys=True)
+            if c in seen:
+                continue
+            if keep is not None and not all(d in keep for d in deviations(cfg)):
+                continue
+            seen.add(c)
+            o.write(c + "\n")
     return out, len(seen)
 
 
@@ -198,7 +212,7 @@ def classify(ctx, pid, res_files, corpus_files, verdicts):
     return skipped
 
 
-def run(ctx, pid, runs, corpus_cfg_limit=None, corpus_maxbytes=0):
+def run(ctx, pid, runs, corpus_keep=None, corpus_maxbytes=0):
     if ctx.replay:
         rp = json.load(open(ctx.replay))
         case = rp["case"]
@@ -224,7 +238,9 @@ def run(ctx, pid, runs, corpus_cfg_limit=None, corpus_maxbytes=0):
     beh, ncases = tlc_cases(ctx, runs)
     ctx.notes["cases_emitted"] = ncases
     ress, evs = replay(ctx, beh)
-    cfgs, ncfg = distinct_cfgs(beh, ctx.work, corpus_cfg_limit)
+    cfgs, ncfg = distinct_cfgs(beh, ctx.work, corpus_keep)
+    if ncfg == 0:
+        raise MachineryFault("no configuration for the corpus run")
     cres, cev = corpus(ctx, cfgs, corpus_maxbytes)
     ctx.notes["corpus_configurations"] = ncfg
     verdicts, nev = validate(ctx, evs + cev)
